@@ -33,6 +33,8 @@ func checkC02(c *core.Ctx) {
 	termKindCoverage(c, rC02TX, []txSpec{{"rewrite", "getVars", []string{"ast.Atom", "ast.Eq", "ast.TemporalLiteral", "ast.TemporalAtom"}, "a variable bound only by a premise kind without a case is not a column of the internal relation, and distinct body solutions are merged before the reducer runs"}})
 	c03DepGraphRule(c, rC02Dep)
 	c07DedupRule(c, rC02Dedup)
+	c.Rule("ORDABS.aggregation-edge-never-weakened", "depGraph.addEdge, evaluated on every prior state of an edge and both polarities: an edge that records an aggregated (negative) mention is never overwritten by a later or earlier positive mention of the same predicate, so recursion through an aggregation is always seen by stratification (obligation shared with C03)", 1)
+	c.Under("ORDABS.aggregation-edge-never-weakened", []string{rC03Edge}, func() { c03AddEdge(c) })
 }
 
 func c02Rewrite(c *core.Ctx) {
